@@ -14,6 +14,7 @@ from mc.report import Reporter, Part
 from mc.par import pmap
 
 E = enums
+W.use_rsa_pool()
 
 
 def _seed_world():
@@ -57,6 +58,11 @@ PREFIX = {
     'a12.keypair': ('alice', (1, 2), lambda: [W.p_create_key_pair(**W.rsa_pair_attrs())], {}),
     'g14.create': ('carol', (1, 4), lambda: [W.p_create()], {'_groups': ['g1']}),
 }
+# engine seam (no codec on the way in): header handling for versions the decoder never lets through
+PREFIX['e.a15.query'] = ('alice', (1, 5), lambda: [W.p_query()], {'_seam': 'engine'})
+PREFIX['e.b30.create'] = ('bob', (3, 0), lambda: [W.p_create()], {'_seam': 'engine'})
+PREFIX['e.a10.attr_list'] = ('alice', (1, 0), lambda: [W.p_get_attribute_list('1')],
+                             {'_seam': 'engine'})
 QUICK_PREFIX = [k for k in PREFIX if k not in ('a12.keypair', 'a12.future', 'b10.register_opaque')]
 
 _AES_PARAMS = 'default'
@@ -111,6 +117,11 @@ _add('g12.locate', 'carol', (1, 2), lambda: [W.p_locate()], _groups=['g1'])
 _add('a12.batch_get_first', 'alice', (1, 2), lambda: [W.p_get(), W.p_create()],
      error_option=E.BatchErrorContinuationOption.CONTINUE)
 
+_add('e.a15.query', 'alice', (1, 5), lambda: [W.p_query()], _seam='engine')
+_add('e.b15.attr_list1', 'bob', (1, 5), lambda: [W.p_get_attribute_list('1')], _seam='engine')
+_add('e.a30.create', 'alice', (3, 0), lambda: [W.p_create()], _seam='engine')
+_add('e.a12.query', 'alice', (1, 2), lambda: [W.p_query()], _seam='engine')
+_add('e.a14.attr_list1', 'alice', (1, 4), lambda: [W.p_get_attribute_list('1')], _seam='engine')
 QUICK_PROBE = list(PROBE)
 
 
@@ -118,10 +129,13 @@ def _apply(w, spec):
     user, version, builder, hdr = spec
     hdr = dict(hdr)
     groups = hdr.pop('_groups', None)
+    if hdr.pop('_seam', None) == 'engine':
+        return w.engine_direct(W.build_request(version, builder(), **hdr), (user, groups))
     return w.do(version, builder(), user=user, groups=groups, **hdr)
 
 
 _SEED = None
+_FRESH_CACHE = {}
 
 
 def _seed_db():
@@ -144,20 +158,27 @@ def run_pair(prefix, probe, part=None):
         W.CLOCK.advance(1)
         t_probe = W.CLOCK.now
         entropy = W.ENTROPY.counter
-        fresh = w.clone()          # copy of the same database, fresh engine, fresh sessions
-        try:
-            ra = _apply(w, PROBE[probe])
-            sa = w.raw_key()
+        # the fresh-engine answer depends only on (database, clock, entropy, probe): memoise it
+        db_before = w.raw_key()
+        ck = (hash(db_before), len(db_before), t_probe, entropy, probe)
+        if ck in _FRESH_CACHE:
+            rbk, rb_brief, sb = _FRESH_CACHE[ck]
+        else:
+            fresh = w.clone()      # copy of the same database, fresh engine, fresh sessions
+            try:
+                rb = _apply(fresh, PROBE[probe])
+                rbk, rb_brief, sb = rb.key(), rb.brief(), fresh.raw_key()
+            finally:
+                fresh.close()
+            _FRESH_CACHE[ck] = (rbk, rb_brief, sb)
             W.CLOCK.now = t_probe
             W.ENTROPY.counter = entropy
-            rb = _apply(fresh, PROBE[probe])
-            sb = fresh.raw_key()
-        finally:
-            fresh.close()
+        ra = _apply(w, PROBE[probe])
+        sa = w.raw_key()
         bad = []
-        if ra.key() != rb.key():
+        if ra.key() != rbk:
             bad.append("response differs: after prefix %s, on fresh engine %s" % (
-                ra.brief(), rb.brief()))
+                ra.brief(), rb_brief))
         if sa != sb:
             bad.append("post-state differs from the fresh engine's")
         if part is not None:
@@ -174,20 +195,33 @@ def _key(prefix, probe):
     return "probe=%s|after=%s" % (probe, prefix[-1] if prefix else '-')
 
 
+CORE = ['a12.create', 'b20.create', 'a12.batch_create_get', 'a10.get_missing', 'e.a15.query',
+        'a20.attr_list']
+
+
+def histories(tier):
+    """Quick: every prefix of length 0..1, and length 2 with the first letter from CORE.
+    Thorough: every prefix of length 0..2, and length 3 with the first two letters from CORE."""
+    full = list(PREFIX)
+    out = [()] + [(a,) for a in full]
+    if tier == 'quick':
+        out += [(a, b) for a in CORE for b in full]
+    else:
+        out += [(a, b) for a in full for b in full]
+        out += [(a, b, c) for a in CORE for b in CORE for c in full]
+    return out
+
+
 def _worker(task):
-    first, depth, prefixes, probes = task
+    hist, probes = task
     part = Part()
-    tails = [()]
-    for d in range(1, depth):
-        tails += list(itertools.product(prefixes, repeat=d))
-    hist = [(first,) + t if first is not None else () for t in tails] if first is not None else [()]
     for prefix in hist:
         for probe in probes:
             bad, text = run_pair(prefix, probe, part)
             if bad:
                 part.violation(_key(prefix, probe), text, {'prefix': list(prefix), 'probe': probe})
         part.count('prefixes')
-        part.sample({'prefix': list(prefix), 'probe': probes[0]})
+    part.sample({'prefix': list(hist[-1]), 'probe': probes[0]})
     out = part.as_dict()
     out['outcomes'] = sorted(part.counters.pop('_outcomes', set()))
     return out
@@ -196,9 +230,11 @@ def _worker(task):
 def run(tier, seed):
     rep = Reporter('C11', 'model_checking', tier, seed)
     depth = 2 if tier == 'quick' else 3
-    prefixes = QUICK_PREFIX if tier == 'quick' else list(PREFIX)
+    prefixes = list(PREFIX)
     probes = list(PROBE)
-    tasks = [(None, depth, prefixes, probes)] + [(p, depth, prefixes, probes) for p in prefixes]
+    hs = histories(tier)
+    n = 64
+    tasks = [(hs[i::n], probes) for i in range(n) if hs[i::n]]
     outcomes = set()
     for part in pmap(_worker, tasks):
         outcomes.update(tuple(o)
@@ -212,7 +248,9 @@ def run(tier, seed):
         states=n_pref, transitions=pairs * 2, traces_validated_against_impl=pairs * 2,
         max_depth=depth, prefix_alphabet=len(prefixes), probes=len(probes),
         distinct_outcomes=len(outcomes), exhaustive=True,
-        explanation="states = prefix histories (all sequences of length 0..%d over %d requests); "
+        explanation="states = prefix histories (quick: all of length 0..1 and length 2 with the first request "
+                    "from a 6-letter core; thorough: all of length 0..2 and length 3 with the first two "
+                    "from the core; max_depth=%d, alphabet=%d); "
                     "per state every probe is executed twice on the real engine: after the prefix "
                     "and on a fresh engine over a copy of the same database" % (depth, len(prefixes)),
     ), assumptions=[
